@@ -1,4 +1,5 @@
 /- Operation table of the model driver: one import and one `++` entry per ops module. -/
+import Driver.Ops.C03
 import Driver.Ops.C07
 import Driver.Ops.C17
 import Driver.Ops.Std
@@ -6,6 +7,7 @@ namespace ZVD
 
 def allOps : OpTable :=
   [("ping", fun _ => pure "ok pong")]
+  ++ opsC03
   ++ opsC07
   ++ opsC17
   ++ opsStd
